@@ -37,3 +37,22 @@ CASES += [
     m("array helper hands out the whole array again (the repaired defect)", "C20-E", P,
       "            for a in range(rng[0],rng[1]):\n                lst.append((a, array[a]))", "            for a in range(array.shape[0]):\n                lst.append((a, array[a]))"),
 ]
+
+CASES += [
+    {"name": "conjugated operators filled inside the distributed loop and never reduced", "kind": "mutant", "rule": "C20-C", "edits": [
+        ("quantarhei/qm/liouvillespace/redfieldtensor.py",
+         "        Lm = numpy.zeros((Nb, Na, Na), dtype=numpy.complex128)\n", "        Lm = numpy.zeros((Nb, Na, Na), dtype=numpy.complex128)\n        Ld = numpy.zeros((Nb, Na, Na), dtype=numpy.complex128)\n", 1),
+        ("quantarhei/qm/liouvillespace/redfieldtensor.py",
+         "                self._guts_Cmplx_Splines(ms, Lm, Km, Na, Om, length, rc1, tm)\n", "                self._guts_Cmplx_Splines(ms, Lm, Km, Na, Om, length, rc1, tm)\n                Ld[ms, :, :] = numpy.conj(numpy.transpose(Lm[ms,:,:]))\n", 1),
+        ("quantarhei/qm/liouvillespace/redfieldtensor.py",
+         "        Ld = numpy.zeros((Nb, Na, Na), dtype=numpy.complex128)\n        for ms in range(Nb):\n            Ld[ms, :, :] += numpy.conj(numpy.transpose(Lm[ms,:,:]))        \n", "", 1)]},
+    {"name": "conjugated operators filled inside the distributed loop and reduced with the others", "kind": "twin", "edits": [
+        ("quantarhei/qm/liouvillespace/redfieldtensor.py",
+         "        Lm = numpy.zeros((Nb, Na, Na), dtype=numpy.complex128)\n", "        Lm = numpy.zeros((Nb, Na, Na), dtype=numpy.complex128)\n        Ld = numpy.zeros((Nb, Na, Na), dtype=numpy.complex128)\n", 1),
+        ("quantarhei/qm/liouvillespace/redfieldtensor.py",
+         "                self._guts_Cmplx_Splines(ms, Lm, Km, Na, Om, length, rc1, tm)\n", "                self._guts_Cmplx_Splines(ms, Lm, Km, Na, Om, length, rc1, tm)\n                Ld[ms, :, :] += numpy.conj(numpy.transpose(Lm[ms,:,:]))\n", 1),
+        ("quantarhei/qm/liouvillespace/redfieldtensor.py",
+         "        distributed_configuration().allreduce(Lm, operation=\"sum\")\n", "        distributed_configuration().allreduce(Lm, operation=\"sum\")\n        distributed_configuration().allreduce(Ld, operation=\"sum\")\n", 1),
+        ("quantarhei/qm/liouvillespace/redfieldtensor.py",
+         "        Ld = numpy.zeros((Nb, Na, Na), dtype=numpy.complex128)\n        for ms in range(Nb):\n            Ld[ms, :, :] += numpy.conj(numpy.transpose(Lm[ms,:,:]))        \n", "", 1)]},
+]
